@@ -1,4 +1,5 @@
 """C15 - component/transform filters preserve rendering; anchors follow components."""
+import math
 from fractions import Fraction
 
 from gen import MATS, outline_font
@@ -9,6 +10,8 @@ ID = "C15"
 PROOF_FILES = ["Geom", "Reverse", "Render", "Flatten", "Propagate", "Propagate2", "Transform", "GoodCert", "C15", "PropagateNum", "TotalGeom", "TotalFilters", "TotalFilters2", "Total"]
 THEOREM = ("Ufo2ft.C15.* (affine algebra, reversal laws, bake lemma, decompose/flatten render preservation, compensation; "
            "C15_transform / transform_convex / transform_all: the whole TransformationsFilter maps every included glyph exactly once; "
+           "tMatrix_eq_requested / requestedMatrix_apply / C15_transform_requested: the matrix set_context builds IS the requested one "
+           "(point map: slant, then scale, about the origin height, then offset) for all options, Slant included; "
            "C15_propagate (+ _placed, _complete, _idempotent, _no_override): the whole PropagateAnchorsFilter satisfies holdsPropagate; "
            "C15_propagateP / C15_propagate_promotion / promoteSplit_promotes / promoteSplit_raises: the mark-ligature promotion; "
            "C15_propagate_numbering / C15_propagateN / propagate_numbered / found_length (Props/PropagateNum.lean): one entry per carrying COMPONENT - an added anchor is named "
@@ -22,9 +25,14 @@ RULE = ("random component graphs (depth<=4, shared bases, dyadic affine matrices
         "(and for 25% of the mark glyphs of the ligature stream) glyphs carry DUPLICATED anchor names (a second/third anchor of an existing name at another position, "
         "inserted anywhere in the list - legal in UFO, both libraries keep a list), tagged dupanchor:used-by-included-composite when an included composite has such a base; the real filter is applied to a glyph set and the glyph set before/after "
         "is compared with the Lean model point for point, and the declarative predicate (spec renderer) is evaluated on the observed "
-        "result. non-trivial = some glyph reaches depth>=2 or has a det<0 component, and the filter modified something "
-        "(mark-ligature stream: a ligature-named composite was modified).")
-ASSUMED = ["Slant (math.tan) is external: Slant is 0 in the exact stream",
+        "result - for the transformations filter against the REQUESTED matrix (Spec.requestedMatrix, derived from the options pointwise, not read back from the filter). "
+        "40% of the transformations cases are the SLANT stream: Slant in {12,-9,15,7.5,20,-30,45,1,-12.5} x ScaleX in {100,80,50,125,70,200,90} x ScaleY in "
+        "{100,110,50,115,200,85,90} (ScaleX != ScaleY in ~80%) x any Origin / Offset / include, no singular components; tan and the non-dyadic scales round in "
+        "doubles, so this stream is compared with tolerance 1e-6 (model vs code, and the tolerance form transformWrongApprox of the predicate on the observed "
+        "result). non-trivial = some glyph reaches depth>=2 or has a det<0 component, and the filter modified something "
+        "(mark-ligature stream: a ligature-named composite was modified; slant stream: Slant != 0 and the filter modified something).")
+ASSUMED = ["math.tan is external: Slant is 0 in the exact stream; in the slant stream the double math.tan(math.radians(Slant)) is an input of "
+           "model and predicate (exact rational), and doubles are compared with tolerance 1e-6",
            "mark-ligature promotion: `_bounds` is the model's own rule (lineBounds = BoundsPen on outlines without curve segments, compared "
            "with the pen on every generated component); for components whose outline has curve segments the pen's value is an input "
            "measured by the harness with fontTools BoundsPen",
@@ -122,7 +130,10 @@ def gen(rng, n, mode):
                    "marks": cats if rng.random() < 0.8 else [], "lib": rng.choice(["ufoLib2", "defcon"]), "missing": False, "stream": "ligmark"}
             continue
         mats = ["id", "id", "mirrorx", "mirrory", "rot90", "rot180", "swap", "half", "shear", "shear2", "sc15", "nonuni", "mirrorshear"]
-        if rng.random() < 0.15:
+        # the Slant stream of the transformations filter: Slant != 0 combined with (mostly non-uniform) positive scales, any
+        # origin / offset / include.  tan is irrational -> doubles round -> compared with tolerance ("inexact")
+        slant = flt == "transformations" and rng.random() < (0.5 if mode == "search" else 0.4)
+        if rng.random() < 0.15 and not slant:
             mats += ["singular", "zero"]
         fd = outline_font(rng, nglyphs=rng.choice([2, 3, 4, 6, 9]), kinds=("line", "line", "curve", "qcurve"), grid=8, half=0.2,
                           mats=mats, maxdepth=4, pcomp=0.6, mixed=0.3, offstart=True, open_=0.1, offgrid=8,
@@ -143,6 +154,12 @@ def gen(rng, n, mode):
                     # included non-empty glyph
                     opts[rng.choice(["ScaleX", "ScaleY"])] = 0
             opts["Origin"] = rng.choice([4, 4, 0, 1, 2, 3])
+            if slant:
+                opts["Slant"] = rng.choice([12, -9, 15, 7.5, 20, -30, 45, 1, -12.5])
+                opts["ScaleX"] = rng.choice([100, 100, 80, 50, 125, 70, 200, 90])
+                opts["ScaleY"] = rng.choice([100, 100, 110, 50, 115, 200, 85, 90])
+                if rng.random() < 0.5:
+                    include = None
             for g in fd["glyphs"]:
                 if rng.random() < 0.4:
                     g["anchors"].append([rng.choice(ANCH), rng.randrange(-300, 600) / 4, rng.randrange(-300, 900) / 4])
@@ -165,8 +182,11 @@ def gen(rng, n, mode):
                             g["anchors"].insert(rng.randrange(len(g["anchors"]) + 1),
                                                 [an, rng.randrange(-300, 600) / 4, rng.randrange(-300, 900) / 4])
             marks = [nm for nm in names if nm.endswith("comb") or rng.random() < 0.1]
-        yield {"filter": flt, "fd": fd, "include": include, "opts": opts, "marks": marks,
-               "lib": rng.choice(["ufoLib2", "defcon"]), "missing": mode == "search" and rng.random() < 0.1}
+        case = {"filter": flt, "fd": fd, "include": include, "opts": opts, "marks": marks,
+                "lib": rng.choice(["ufoLib2", "defcon"]), "missing": mode == "search" and rng.random() < 0.1}
+        if slant:
+            case["inexact"] = True; case["missing"] = False
+        yield case
 
 
 def _origin_height(origin, cap, xh):
@@ -220,7 +240,7 @@ def run(case):
     o = case["opts"]
     if flt == "transformations":
         f = TransformationsFilter(OffsetX=o["OffsetX"], OffsetY=o["OffsetY"], ScaleX=o["ScaleX"], ScaleY=o["ScaleY"],
-                                  Origin=o["Origin"], **kw)
+                                  Slant=o.get("Slant", 0), Origin=o["Origin"], **kw)
     else:
         f = {"decompose": DecomposeComponentsFilter, "decomposeTransformed": DecomposeTransformedComponentsFilter,
              "flatten": FlattenComponentsFilter, "propagateAnchors": PropagateAnchorsFilter}[flt](**kw)
@@ -241,7 +261,12 @@ def run(case):
         obs = {"err": type(e).__name__}
     inp = {"filter": flt, "glyphs": before, "include": case["include"], "marks": case["marks"], "bounds": bounds,
            "opts": {"OffsetX": rat(o["OffsetX"]), "OffsetY": rat(o["OffsetY"]), "ScaleX": rat(o["ScaleX"]), "ScaleY": rat(o["ScaleY"]),
-                    "slantNonzero": False, "tanSlant": "0", "originHeight": rat(_origin_height(o["Origin"], 700, 501))}}
+                    "slantNonzero": o.get("Slant", 0) != 0,
+                    # math.tan is external: its double value travels as an exact rational
+                    "tanSlant": rat(math.tan(math.radians(o.get("Slant", 0)))) if o.get("Slant", 0) != 0 else "0",
+                    "originHeight": rat(_origin_height(o["Origin"], 700, 501))}}
+    if case.get("inexact"):
+        inp["inexact"] = True
     deep = any(len(g["components"]) and any(any(c2[0] == c[0] for c2 in []) or True for c in g["components"]) for g in fd["glyphs"])
     neg = any(t[0] * t[3] - t[1] * t[2] < 0 for g in fd["glyphs"] for _, t in g["components"])
     nontrivial = bool(obs.get("modified")) and (neg or deep)
@@ -262,6 +287,10 @@ def run(case):
     tags = ([case["stream"], "promoted:" + ("yes" if promoted else "no"), "tie:" + ("yes" if tie else "no"),
              "bounds:" + ("pen-measured(curve)" if curved else "modelled")] if case.get("stream") else []) + [flt, case["lib"], "include:" + ("all" if case["include"] is None else "subset"), "err:" + str(obs.get("err")),
             "modified:" + ("yes" if obs.get("modified") else "no")] + (["det<0"] if neg else [])
+    if case.get("inexact"):
+        nontrivial = bool(obs.get("modified")) and o.get("Slant", 0) != 0
+        tags = ["slant(tolerance 1e-6)", "scale:" + ("uniform" if o["ScaleX"] == o["ScaleY"] else "ScaleX!=ScaleY"),
+                "origin:" + ("baseline" if o["Origin"] == 4 else "shifted")] + tags
     if flt == "propagateAnchors":
         dupg = {g["name"] for g in fd["glyphs"] if len({a[0] for a in g["anchors"]}) < len(g["anchors"])}
         used = any(c[0] in dupg for g in fd["glyphs"] for c in g["components"] if case["include"] is None or g["name"] in case["include"])
@@ -269,10 +298,27 @@ def run(case):
     return [{"op": "filter", "in": inp, "obs": obs, "tags": tags, "nontrivial": nontrivial}]
 
 
+def _close(a, b, tol=Fraction(1, 10 ** 6)):
+    """structural equality; strings that are rationals on both sides are compared within tol"""
+    if isinstance(a, (list, tuple)) and isinstance(b, (list, tuple)):
+        return len(a) == len(b) and all(_close(x, y, tol) for x, y in zip(a, b))
+    if isinstance(a, dict) and isinstance(b, dict):
+        return a.keys() == b.keys() and all(_close(a[k], b[k], tol) for k in a)
+    if isinstance(a, str) and isinstance(b, str) and a != b:
+        try:
+            return abs(Fraction(a) - Fraction(b)) <= tol
+        except (ValueError, ZeroDivisionError):
+            return False
+    return a == b
+
+
 def agree(req, rep):
     m, o = rep["model"], req["obs"]
     if m.get("err") is not None or o.get("err") is not None:
         return m.get("err") == o.get("err")
+    if req["in"].get("inexact"):
+        # Slant stream: the model computes in Q with tan's double value, the code in doubles
+        return _close(m["glyphs"], o["glyphs"]) and m["modified"] == o["modified"]
     for (k, b), (k2, b2) in zip(req["in"].get("bounds", []), m.get("bounds", [])):
         if b2 != "curve" and (k != k2 or b != b2):      # the model's BoundsPen rule for line outlines == the pen
             return False
@@ -345,7 +391,9 @@ LEVEL_TEXT = ("Proved (Lean, all inputs): fontTools Transform algebra (compose =
               "preservation of decomposition/flattening steps; TransformationsFilter over the whole glyph set (C15_transform: for every "
               "acyclic glyph set, det>0 matrix and convex include set the declarative predicate holds of the model output: outline, "
               "anchors, advance mapped exactly once, bases and composites both included; false without convexity: "
-              "transform_nonconvex_counterexample); PropagateAnchorsFilter over the whole glyph set (C15_propagate: for every acyclic "
+              "transform_nonconvex_counterexample; tMatrix_eq_requested: for ALL options (offset, scales, slant with tan as a parameter, origin height) the "
+              "matrix set_context builds equals the matrix of the requested point map x' = ScaleX/100*(x + tan*(y-h)) + OffsetX, y' = ScaleY/100*(y-h) + h + OffsetY, "
+              "i.e. slant before scale); PropagateAnchorsFilter over the whole glyph set (C15_propagate: for every acyclic "
               "glyph set, mark list and include predicate holdsPropagate holds of the model output: anchors only appended, every added "
               "anchor at T(anchor) of a component's base in the final set under its name or name_N, never under a name the glyph had, "
               "nothing missing on base-only composites, a second run changes nothing; C15_propagateP adds the mark-ligature promotion: "
@@ -354,7 +402,11 @@ LEVEL_TEXT = ("Proved (Lean, all inputs): fontTools Transform algebra (compose =
               "discipline numberingWrong: every added anchor bears exactly the name of an anchor of a component's base, or name_N with at least two components whose base "
               "carries name and 1 <= N <= their number - a base with several anchors of one name counts once, its FIRST anchor of that name is the one propagated (model: find?)); the executable models of all five filters are tied to the code point "
               "for point by the correspondence run, and the declarative render-equality predicate is evaluated on the real output.")
-LEVEL_NOTE = ("Trusted: Lean kernel + standard axioms; correspondence harness and its dyadic generators; Slant (tan) is not modelled; the bounds "
+LEVEL_NOTE = ("Trusted: Lean kernel + standard axioms; correspondence harness and its dyadic generators; math.tan is external (its double value is a parameter); the Slant stream of the transformations filter is "
+              "TOLERANCE-ONLY (1e-6): there agree = |model - code| <= 1e-6 per coordinate and the predicate is transformWrongApprox (position-by-position "
+              "comparison of the resolved outline with the requested matrix applied to the outline before, anchors, advance; only contour counts when det <= 0 or a "
+              "singular component is reachable) evaluated by the Lean driver on the OBSERVED data - no theorem states that the model output satisfies the tolerance "
+              "form (closeDrawing_refl only: an exact match is accepted); the exact predicate transformWrong is proved of the model (C15_transform) and evaluated in the exact stream; the bounds "
               "of components whose outline has curve segments are measured by the harness (fontTools BoundsPen), line outlines are modelled; TransformationsFilter's include-gap double application "
               "is a known finding (see known_findings.json), any other failure is a violation. With duplicated anchor names in a base the declarative predicate "
               "fixes the NAMES (numbering clause) and accepts the position of any base anchor of that name; that it is the first one is checked by the point-for-point "
